@@ -243,7 +243,7 @@ pub fn archive(max_entries: usize, max_content: u32, allow_unsupported: bool) ->
 
 /// true if the ZIP64 forward search of a prefixed archive could hit a fake signature first
 pub fn zip64_search_ambiguous(spec: &ArchiveSpec, built: &crate::refzip::Built) -> bool {
-    if spec.zip64_end.is_none() && spec.entries.len() < 0xFFFF {
+    if spec.zip64_end.is_none() && spec.entries.len() <= 0xFFFF {
         return false;
     }
     let true_pos = built.eocd_pos.saturating_sub(76) as usize;
